@@ -197,6 +197,9 @@ def ppf(q: np.ndarray, a: np.ndarray | float, b: np.ndarray | float) -> np.ndarr
     if q_right.size:
         out[case_right] = ppf_right(q_right, a[case_right], b[case_right])
 
+    # Rounding in (log) Phi space can push a quantile past the truncation bounds (far past ``b``
+    # for ``q`` within a few ulps of 1 when ``a < 0``), so clip to the support.
+    out = np.clip(out, a, b)
     out[q == 0] = a[q == 0]
     out[q == 1] = b[q == 1]
     out[a == b] = math.nan
